@@ -273,6 +273,42 @@ Theorem traceql_correct_agg_any_spans : forall re_match parse_float hash64 (c : 
 Proof. exact TraceqlAggProofs.traceql_correct_agg_any_spans. Qed.
 Print Assumptions traceql_correct_agg_any_spans.
 
+(* 12p/13p. Portions inside one statement (rf_max > 0): ComplexRequestProcessor sends the search once per portion with
+   cityHash64(trace_id) % Max == I [OR trace_id IN (unhex(cached ids))] added to the WHERE of index_search.  For every portion (Max >= 1, any I,
+   any list of cached ids) the statement, run over the WHOLE index, returns what the script means over the rows of the traces VISIBLE to
+   that portion (visible: hash class I or cached) -- the `V i S from` of theorem 8, here with spans, selectors and aggregate filters.
+   Guard rf_ok: Max > 0 and its printed text reads back as Max (computed on every case; the round trip of string_of_Z is not proved). *)
+Theorem traceql_correct_single_portion : forall re_match parse_float hash64 (c : ctx) (d : db),
+  rf_ok c = true -> db_consistent c (visible hash64 c d) -> spans_capped c (visible hash64 c d) ->
+  forall e : attr_exp,
+  keys_ok e = true ->
+  forallb term_lit_ok (fst (snd (analyze_cond e ([], [])))) = true ->
+  (List.length (fst (snd (analyze_cond e ([], [])))) <= 64)%nat ->
+  (cond_depth (fst (analyze_cond e ([], []))) <= 28)%nat ->
+  lits_exact e = true ->
+  forall (ao : andor) (n : nat) (s : select),
+  plan (q1 e ao) MSearch c n = Ok s ->
+  exists res, index_rows_g re_match parse_float hash64 c d s = Some res
+              /\ result_ok c (traceql_sem re_match parse_float false c (visible hash64 c d) (q1 e ao)) res = true.
+Proof. exact TraceqlCorrectProofs.traceql_correct_single_portion. Qed.
+Print Assumptions traceql_correct_single_portion.
+
+Theorem traceql_correct_agg_portion : forall re_match parse_float hash64 (c : ctx) (d : db),
+  rf_ok c = true -> db_consistent c (visible hash64 c d) -> spans_capped c (visible hash64 c d) ->
+  forall e : attr_exp,
+  keys_ok e = true ->
+  forallb term_lit_ok (fst (snd (analyze_cond e ([], [])))) = true ->
+  (List.length (fst (snd (analyze_cond e ([], [])))) <= 64)%nat ->
+  (cond_depth (fst (analyze_cond e ([], []))) <= 28)%nat ->
+  lits_exact e = true ->
+  forall ag : aggregator, agg_guard ag = true -> agg_lit_exact ag = true ->
+  forall (ao : andor) (n : nat) (s : select),
+  plan (q2 e ag ao) MSearch c n = Ok s ->
+  exists res, index_rows_g re_match parse_float hash64 c d s = Some res
+              /\ result_ok c (traceql_sem re_match parse_float false c (visible hash64 c d) (q2 e ag ao)) res = true.
+Proof. exact TraceqlAggProofs.traceql_correct_agg_portion. Qed.
+Print Assumptions traceql_correct_agg_portion.
+
 (* ---------------------------------------------------------------- && / || between selectors
 
    15. Layer "operand": the statement ComplexAndPlanner / ComplexOrPlanner wrap around operand number i,
